@@ -86,6 +86,7 @@ func scenFold(out *scenOut, r *rng, thorough bool) {
 		}
 	}
 	kindsReachUpdate(out)
+	slowViewNoOverlap(out)
 	printlnKeepsItsPlace(out)
 	sendsAcrossExec(out, "nil")
 	sendsAcrossExec(out, "blocking")
@@ -501,6 +502,7 @@ func scenCmds(out *scenOut, r *rng, thorough bool) {
 	for _, input := range []string{"nil", "blocking", "pipe"} {
 		cmdResultsAcrossExec(out, input)
 	}
+	twoBigBatches(out)
 }
 
 // batchReuse: the SAME Batch command value (or the same BatchMsg value) occurs more than once:
@@ -839,6 +841,7 @@ func scenSeq(out *scenOut, r *rng, thorough bool) {
 	seqReuse(out)
 	seqWhileLoopBusyLong(out, false)
 	seqWhileLoopBusyLong(out, true)
+	seqSlowBatchElement(out)
 	// a sequence element yielding a raw BatchMsg with a nil entry: run in a
 	// child process, because a failure kills the whole process
 	self, _ := os.Executable()
@@ -2077,5 +2080,156 @@ func cmdResultsAcrossExec(out *scenOut, input string) {
 	if len(bad) > 0 {
 		out.fail(finding{Property: "C02", Class: "new", What: "results of commands that finished while an Exec released / held / restored the terminal did not all reach Update exactly once", Input: desc,
 			Expected: fmt.Sprintf("%d results, once each", n), Observed: strings.Join(bad[:min(len(bad), 12)], ", ")})
+	}
+}
+
+// ---- crossing thresholds (round 13): many, big, slow -----------------------------------------
+
+// twoBigBatches: two Batches of 300 commands each returned by consecutive Updates (more commands than
+// any internal queue or limit could hold), each command returning its own message: all 600 are
+// invoked once and all 600 results reach Update once.
+func twoBigBatches(out *scenOut) {
+	ctl := newRecCtl()
+	const n = 300
+	var invoked [2 * n]int32
+	mk := func(base int) tea.Cmd {
+		cmds := make([]tea.Cmd, n)
+		for i := range cmds {
+			k := base + i
+			cmds[i] = func() tea.Msg { atomic.AddInt32(&invoked[k], 1); return cmdMsg{fmt.Sprintf("big%d", k)} }
+		}
+		return tea.Batch(cmds...)
+	}
+	ctl.onUpdate = func(m tea.Msg, v int) tea.Cmd {
+		if u, ok := m.(userMsg); ok && u.Sender == 0 {
+			return mk(u.Seq * n)
+		}
+		return nil
+	}
+	run := startProgram(ctl, nil, tea.WithInput(nil), tea.WithoutSignalHandler())
+	desc := fmt.Sprintf("two consecutive Updates each return a Batch of %d commands", n)
+	run.p.Send(userMsg{0, 0})
+	run.p.Send(userMsg{0, 1})
+	waitFor(6*time.Second, func() bool { return ctl.log.count("update-exit", "c:big") >= 2*n })
+	time.Sleep(30 * time.Millisecond)
+	run.p.Quit()
+	run.wait(4 * time.Second)
+	out.record("two-big-batches", desc)
+	notOnce := 0
+	for i := range invoked {
+		if atomic.LoadInt32(&invoked[i]) != 1 {
+			notOnce++
+		}
+	}
+	counts := map[string]int{}
+	for _, u := range updatesOf(ctl.log.snapshot()) {
+		if strings.HasPrefix(u, "c:big") {
+			counts[u]++
+		}
+	}
+	bad := 0
+	for k := 0; k < 2*n; k++ {
+		if counts[fmt.Sprintf("c:big%d", k)] != 1 {
+			bad++
+		}
+	}
+	if notOnce > 0 || bad > 0 {
+		out.fail(finding{Property: "C02", Class: "new", What: "commands of two large consecutive Batches were not all invoked exactly once with their results delivered exactly once", Input: desc,
+			Expected: fmt.Sprintf("%d invoked once, %d results once", 2*n, 2*n), Observed: fmt.Sprintf("%d commands not invoked exactly once, %d results not delivered exactly once", notOnce, bad)})
+	}
+}
+
+// slowViewNoOverlap: a View that takes 70 ms, several times in a row, while messages keep arriving:
+// callbacks still never overlap, and the model each Update gets is the one the previous returned.
+func slowViewNoOverlap(out *scenOut) {
+	ctl := newRecCtl()
+	var slow int32 = 1
+	ctl.viewOf = func(version, ups int) string {
+		if atomic.LoadInt32(&slow) == 1 {
+			time.Sleep(70 * time.Millisecond)
+		}
+		return fmt.Sprintf("v%d\n", ups)
+	}
+	run := startProgram(ctl, nil, tea.WithInput(nil), tea.WithoutSignalHandler())
+	desc := "View takes 70 ms for the first eight messages; a sender keeps sending every 5 ms"
+	waitFor(2*time.Second, func() bool { return ctl.log.has("view-exit", "") })
+	done := make(chan struct{})
+	go func() {
+		defer close(done)
+		for k := 0; k < 40; k++ {
+			run.p.Send(userMsg{3, k})
+			if k == 8 {
+				atomic.StoreInt32(&slow, 0)
+			}
+			time.Sleep(5 * time.Millisecond)
+		}
+	}()
+	select {
+	case <-done:
+	case <-time.After(8 * time.Second):
+	}
+	run.p.Send(userMsg{6, 6})
+	waitFor(3*time.Second, func() bool { return ctl.log.has("update-exit", "u6.6") })
+	run.p.Quit()
+	run.wait(4 * time.Second)
+	out.record("slow-view-no-overlap", desc)
+	if n := atomic.LoadInt32(&ctl.overlaps); n != 0 {
+		out.fail(finding{Property: "C01", Class: "new", What: "Init / Update / View / filter executed concurrently with one another (a slow View)", Input: desc, Expected: "0 overlaps", Observed: fmt.Sprint(n)})
+	}
+	if got := ctl.log.count("update-enter", "u3."); got != 40 {
+		out.fail(finding{Property: "C01", Class: "new", What: "messages lost or duplicated while View was slow", Input: desc, Expected: "40", Observed: fmt.Sprint(got)})
+	}
+}
+
+// seqSlowBatchElement: an element of a Sequence is a Batch one of whose commands takes 1.4 s (and a
+// second batch whose messages are taken slowly by a busy loop): the next element does not start
+// before EVERY message of the batch has been received, however long that takes (C03).
+func seqSlowBatchElement(out *scenOut) {
+	ctl := newRecCtl()
+	var mu sync.Mutex
+	var order []string
+	note := func(s string) { mu.Lock(); order = append(order, s); mu.Unlock() }
+	quick := func(id string) tea.Cmd { return func() tea.Msg { return cmdMsg{id} } }
+	slow := func() tea.Msg { time.Sleep(1400 * time.Millisecond); note("slow-returns"); return cmdMsg{"sb-slow"} }
+	next := func() tea.Msg { note("next-starts"); return cmdMsg{"sb-next"} }
+	ctl.onUpdate = func(m tea.Msg, v int) tea.Cmd {
+		if u, ok := m.(userMsg); ok && u.Sender == 9 {
+			return tea.Sequence(quick("sb-first"), tea.Batch(quick("sb-a"), slow, quick("sb-b")), next)
+		}
+		if c, ok := m.(cmdMsg); ok && c.ID == "sb-slow" {
+			note("slow-received")
+		}
+		return nil
+	}
+	run := startProgram(ctl, nil, tea.WithInput(nil), tea.WithoutSignalHandler())
+	desc := "Sequence(first, Batch(a, a command taking 1.4 s, b), next)"
+	waitFor(2*time.Second, func() bool { return ctl.log.has("view-exit", "") })
+	run.p.Send(userMsg{9, 0})
+	waitFor(5*time.Second, func() bool { return ctl.log.has("update-exit", "c:sb-next") })
+	run.p.Quit()
+	run.wait(4 * time.Second)
+	out.record("seq-slow-batch-element", desc)
+	mu.Lock()
+	var starts []string
+	for _, o := range order {
+		if o != "slow-received" { // (handled by Update: later than "received by the loop", which is all the next start waits for)
+			starts = append(starts, o)
+		}
+	}
+	got := strings.Join(starts, " ")
+	mu.Unlock()
+	if got != "slow-returns next-starts" {
+		out.fail(finding{Property: "C03", Class: "new", What: "the element after a Batch started before every command of the batch had delivered its message (a slow command in the batch)", Input: desc,
+			Expected: "slow-returns next-starts", Observed: got})
+	}
+	var ups []string
+	for _, u := range updatesOf(ctl.log.snapshot()) {
+		if u == "c:sb-slow" || u == "c:sb-next" || u == "c:sb-first" {
+			ups = append(ups, u)
+		}
+	}
+	if strings.Join(ups, " ") != "c:sb-first c:sb-slow c:sb-next" {
+		out.fail(finding{Property: "C03", Class: "new", What: "the messages of a sequence with a slow batch element did not reach Update in sequence order", Input: desc,
+			Expected: "c:sb-first c:sb-slow c:sb-next", Observed: strings.Join(ups, " ")})
 	}
 }
